@@ -87,6 +87,17 @@ def json_key(x):
     return json.dumps(x, sort_keys=True, default=str)
 
 
+def op_count_files(c):
+    """build and report only how many files came back (no hashing): for inputs whose text cannot be UTF-8 encoded, such as a
+    file name holding a byte that os.listdir() or sys.argv surrogate-escaped"""
+    fc = buildlib.parse_file(c['file'])
+    try:
+        res = Builder().build(buildlib.mk_cfg(c['cfg'], fc))
+        return [0, len(res.files), [g.filename for g in res.files]]
+    except Exception as e:  # noqa
+        return exc(e)
+
+
 def op_history(c):
     """models parsed once and shared; steps = [model index, cfg]; every build: snapshot inputs before/after"""
     # share_builder: one Builder instance serves every build of the history (otherwise a new one per build);
@@ -175,4 +186,4 @@ def op_standalone(c):
 
 
 from dznpy.adv_shell import Builder  # noqa: E402
-main({'templates': op_templates, 'support': op_support, 'build': op_build, 'history': op_history, 'collide': op_collide, 'standalone': op_standalone})
+main({'count_files': op_count_files, 'templates': op_templates, 'support': op_support, 'build': op_build, 'history': op_history, 'collide': op_collide, 'standalone': op_standalone})
